@@ -5,8 +5,7 @@ import Folang.Model.Unify
 
 `unify` takes a step bound.  Once it has answered (`ok` or `clash`) with some bound it gives the same
 answer with every larger bound: the bound never changes WHAT is answered, only whether an answer is
-reached.  (The stream `c02.graph` reports an exhausted bound as `fuel`, which is compared like any
-other answer, so an inadequate bound shows up as a mismatch, never as a wrong signature.)
+reached.  (The stream `c02.graph` answers an exhausted bound as outside-fragment: counted, not compared.)
 -/
 
 namespace Folang.Unify
